@@ -81,6 +81,9 @@ type Case struct {
 	Scenario string `json:"scenario"`
 	Deviator int    `json:"deviator"`
 	Dev      Dev    `json:"dev"`
+	// LateStart: node index + 1 of an honest party whose Start() is called only once nothing else is
+	// deliverable (everything sent to it until then arrives before its Start); 0 = every party starts first
+	LateStart int `json:"late_start,omitempty"`
 }
 
 type ErrRec struct {
@@ -600,7 +603,11 @@ func Execute(c Case) (out Outcome) {
 			order = append(order, n.Idx)
 		}
 	}
+	late := c.LateStart - 1
 	for _, i := range order {
+		if i == late {
+			continue
+		}
 		push(nw.Start(i).NewMsg)
 	}
 	altered := map[*netrun.Msg][]byte{}
@@ -611,7 +618,13 @@ func Execute(c Case) (out Outcome) {
 	if strings.HasPrefix(c.Dev.Op, "recommit:") {
 		recommit = pairFor(c.Scenario, c.Dev.MsgType)
 	}
-	for len(q) > 0 {
+	for len(q) > 0 || late >= 0 {
+		if len(q) == 0 {
+			// nothing else can be delivered: the late party starts now
+			push(nw.Start(late).NewMsg)
+			late = -1
+			continue
+		}
 		x := q[0]
 		q = q[1:]
 		bz := x.m.Bytes
@@ -1042,6 +1055,24 @@ func WeakCases(scName string, positions []int) []Case {
 		}
 	}
 	return cases
+}
+
+// FirstRoundTypes: the message types the node emits from its Start() (they can reach a peer before that
+// peer's own Start()).
+func FirstRoundTypes(scName string, node int) map[string]bool {
+	out := map[string]bool{}
+	sc, ok := Scenario(scName)
+	if !ok {
+		return out
+	}
+	nw, err := netrun.New(sc.Cfg)
+	if err != nil {
+		return out
+	}
+	for _, m := range nw.Start(node).NewMsg {
+		out[m.Type] = true
+	}
+	return out
 }
 
 // ConfigCases: wrong-secret and duplicated-parameter parties for a scenario.
